@@ -80,7 +80,7 @@ def main():
                      "kind_free_text": "symbolic interpreter over go/ssa (fork of x/tools go/ssa/interp) + partial-order concurrency encoder + SMT-LIB2 drivers (z3 4.8.12, z3 5.1.0, cvc5 1.0)"}],
         "checks": checks,
         "not_applicable": [{"property_id": p, "reason": NA.get(p, NA_REASON)} for p in props if p not in CHECKS],
-        "notes": "Repairs of genuine defects: see known_findings.json ('fixed'). Known findings (K1-K3) are genuine defects pinned by golden tests; see DESIGN.md §8.",
+        "notes": "Twelve genuine defects were repaired with 'fix:' commits in /repo (known_findings.json 'fixed', DESIGN.md A.4). Known findings K1 (C06), K2a/K2b (C07), K3 (C08) are genuine defects pinned by the golden tests; each is listed with its signature and the corpus inputs it occurs on, so the same site on another input is still reported (DESIGN.md A.2, A.4). 95 seeded changes with what detects them: /verif/seeded/*/meta.json, DESIGN.md A.5.",
     }
     json.dump(m, open("/verif/MANIFEST.json", "w"), indent=1)
 
